@@ -7,8 +7,14 @@ import itertools, random
 import numpy as np
 from harness import common as C
 
+# The ids of failing cases are returned as Z (binary), not nat: reading back a unary nat of depth ~50000 from the VM
+# overflows the stack, which would turn a run WITH disagreements into "shard not evaluated".  This `failing` shadows
+# Corr.C01.failing (same filter on Corr.C01.agree); Z_scope is opened so that the list prints without delimiters.
 HEADER = """From Coq Require Import List ZArith Bool Uint63. Import ListNotations.
-From TLV Require Import Base.Tensor Corr.C01."""
+From TLV Require Import Base.Tensor Corr.C01.
+Definition failing (cs : list case) : list Z :=
+  map (fun c : case => let '(i, _, _, _) := c in Uint63.to_Z i) (filter (fun c => negb (agree c)) cs).
+Open Scope Z_scope."""
 
 REFOLD = ("fold", "partial_fold", "vec_to_tensor", "partial_vec_to_tensor")
 PRIMS = ("moveaxis", "moveaxis_generic", "transpose", "reshape")
@@ -162,12 +168,15 @@ def gen_cases(tier, rng):
     if tier == "quick":
         shp = [()] + list(shapes([1, 2, 3, 4], [1, 2, 3]))
     else:
-        shp = [()] + list(shapes([1, 2, 3, 4, 5], [1, 2, 3])) + list(shapes([6], [1, 2]))
-        for _ in range(300):
+        shp = [()] + list(shapes([1, 2, 3, 4, 5], [1, 2, 3]))
+        for _ in range(200):
             o = rng.randint(1, 5)
             shp.append(tuple(rng.randint(1, 6) for _ in range(o)))
     for s in shp:
         yield from gen_shape(s, tier, rng, light=False)
+    if tier != "quick":
+        for s in shapes([6], [1, 2]):                       # every order-6 shape over {1,2}, sampled arguments
+            yield from gen_shape(s, tier, rng, light=True)
     # size-0 modes: every shape of order 1-3 over {0,1,2,3} with an empty mode, order 4 over {0,1,2} (sampled arguments)
     for s in shapes([1, 2, 3], [0, 1, 2, 3]):
         if 0 in s:
@@ -584,7 +593,7 @@ def run(chk):
     chk.cov["exhaustive"] = True
     chk.cov["dtype_layout_combinations_per_function"] = {f: sum(1 for x in seen_combo if x[0] == f) for f in sorted({x[0] for x in seen_combo})}
     chk.cov["rule"] = ("every tensor shape of order 0-4 over mode sizes {1,2,3}, plus every shape of order 1-3 over {0,1,2,3} that has an empty mode "
-                       "(thorough: order<=5, order 6 over {1,2}, +300 random shapes; order-4 shapes with an empty mode, orders 5-11 over {1,2} and orders 5-6 over {1,2,3} "
+                       "(thorough: order<=5, +200 random shapes, every order-6 shape over {1,2} with sampled arguments; order-4 shapes with an empty mode, orders 5-11 over {1,2} and orders 5-6 over {1,2,3} "
                        "are SAMPLED, not exhaustive) x every function of tensorly/base.py x every signed mode -n..n-1 (+1 invalid at either end) x every "
                        "(skip_begin, skip_end, ravel) split with every documented mode 0 <= mode < ndim-skip_begin-skip_end (plus one non-existent mode; requests whose moved axis overlaps a skipped block are garbage-in and not generated) "
                        "x every ordered row/column split of matricize (order<=3; sampled above) + invalid requests "
